@@ -811,7 +811,27 @@ class ODLEncoder(PVLEncoder):
         elif self.is_symbol(value):
             return "'" + value + "'"
         else:
-            return super().encode_string(value)
+            return self.encode_text_string(value)
+
+    def encode_text_string(self, value) -> str:
+        """Returns a ``str`` formatted as an ODL Text String, which is
+        double-quoted.  The parent function falls back to single quotes
+        for text that contains a double quote, but in ODL single quotes
+        enclose a Symbol String, which must not contain format effectors.
+        """
+        s = super().encode_string(value)
+
+        if s.startswith("'"):
+            for fe in self.grammar.format_effectors:
+                if fe in s:
+                    raise ValueError(
+                        "ODL cannot represent text that contains both a "
+                        "double quote and a line break, since only a "
+                        "single-quoted Symbol String could hold the "
+                        f'quote: "{value}"'
+                    )
+
+        return s
 
     def encode_time(self, value: datetime.time) -> str:
         """Extends parent function since ODL allows a time zone offset
@@ -1143,7 +1163,7 @@ class PDSLabelEncoder(ODLEncoder):
         elif self.is_symbol(value) and self.symbol_single_quote:
             return "'" + value + "'"
         else:
-            return super(ODLEncoder, self).encode_string(value)
+            return self.encode_text_string(value)
 
     def encode_time(self, value: datetime.time) -> str:
         """Overrides parent's encode_time() function because
